@@ -98,9 +98,8 @@ def publish_last(ctx):
                     if st not in ahead_st:
                         ahead_st.append(st)
         order = [x for x in ("analysis", "generation", "fill", "other") if x in ahead]
-        # the finding is "published before the build can no longer fail"; which phases are still ahead is said in
-        # the text, not in the key (the phase attribution depends on call-graph precision and is not an identity)
-        suffix = "last" if not ahead else "before-fallible-steps"
+        # the key names the phases still ahead: moving a publication across a phase is another construct
+        suffix = "last" if not ahead else "before-" + "+".join(order)
         ctx.ob(
             f"{build.key}:{cat}-{suffix}",
             build.loc(stmts[0]),
